@@ -121,7 +121,8 @@ class Scratch:
                 raise RuntimeError("link step failed: %s\n%s" % (" ".join(st[:3]), p.stderr[-2000:]))
         return out, h
 
-    def run_instance(self, inst, trace=False):
+    def run_instance(self, inst, trace_property=None):
+        trace = trace_property is not None
         t0 = time.time()
         res = {"name": inst.name, "descr": inst.descr, "bounds": inst.bounds, "expect_panic": inst.expect_panic,
                "contract": inst.contract, "function": inst.function}
@@ -136,7 +137,7 @@ class Scratch:
         unwind = h["attributes"].get("unwind_value") or 12
         cmd = ["cbmc"] + CBMC_FLAGS + ["--verbosity", "8", "--unwind", str(unwind), goto]
         if trace:
-            cmd.insert(-1, "--trace")
+            cmd[-1:-1] = ["--trace", "--property", trace_property]
         res["checker_cmd"] = " ".join(cmd[:-1]) + " <harness>.goto"
         limit = inst.mem_gb * 1024 * 1024 * 1024
 
@@ -153,9 +154,11 @@ class Scratch:
             return res
         _rm(goto)
         res["wall_s"] = time.time() - t0
-        parse_cbmc(out, res, inst)
         if trace:
             res["trace_inputs"] = parse_trace_inputs(out)
+            res["status"] = "trace"
+            return res
+        parse_cbmc(out, res, inst)
         if res["status"] == "undecided" and "reason" not in res:
             res["reason"] = (p.stderr or out)[-400:]
         return res
@@ -284,15 +287,10 @@ def parse_cbmc(out, res, inst):
 def parse_trace_inputs(out):
     """Values returned by sym_i64() in call order, from a `cbmc --trace` listing."""
     vals = []
-    lines = out.splitlines()
-    for i, l in enumerate(lines):
-        if l.startswith("State ") and "sym_i64" in l:
-            # the assignment is on one of the next lines: `  vk_input=3 (0000...)`
-            for j in range(i + 1, min(i + 4, len(lines))):
-                m = re.match(r"\s*vk_input=(-?\d+)", lines[j])
-                if m:
-                    vals.append(int(m.group(1)))
-                    break
+    for l in out.splitlines():
+        m = re.match(r"\s*vk_input=(-?\d+)", l)
+        if m:
+            vals.append(int(m.group(1)))
     return vals
 
 
